@@ -28,6 +28,7 @@ func init() {
 		NotCovered: "termination (unbounded recursion or loops in cl and gogen: stack overflow is a fatal error no recover catches), the clause that every reported error position lies inside the compiled files, and panics raised inside gogen's own goroutine-free code are covered only through (1).",
 		Run:        runC07,
 		Controls: []Control{
+			{Name: "loader-removed-after-load", File: "cl/compile.go", Old: "\t\tdelete(p.syms, name)\n\t\tf.load()\n", New: "\t\tf.load()\n\t\tdelete(p.syms, name)\n", Expect: "loader-reentrancy/pkgCtx.loadSymbol"},
 			{Name: "recover-after-newpackage", File: f, Old: "\tif enableRecover {\n\t\tdefer func() {\n\t\t\tif e := recover(); e != nil {\n\t\t\t\tctx.handleRecover(e, nil)\n\t\t\t\terr = ctx.errs.ToError()\n\t\t\t}\n\t\t}()\n\t}\n\tp = gogen.NewPackage(pkgPath, pkg.Name, confGox)\n", New: "\tp = gogen.NewPackage(pkgPath, pkg.Name, confGox)\n\tif enableRecover {\n\t\tdefer func() {\n\t\t\tif e := recover(); e != nil {\n\t\t\t\tctx.handleRecover(e, nil)\n\t\t\t\terr = ctx.errs.ToError()\n\t\t\t}\n\t\t}()\n\t}\n", Expect: "recover-first/cl.NewPackage"},
 			{Name: "recover-default-off", File: f, Old: "\tenableRecover = true\n", New: "\tenableRecover = false\n", Expect: "recover-default/cl.enableRecover"},
 			{Name: "buildfile-no-recover", File: b, Old: "func (ctx *Context) BuildFile(filename string, src any) (data []byte, err error) {\n\tdefer func() {\n\t\tr := recover()\n\t\tif r != nil {\n\t\t\terr = fmt.Errorf(\"compile %v failed. %v\", filename, r)\n\t\t}\n\t}()\n", New: "func (ctx *Context) BuildFile(filename string, src any) (data []byte, err error) {\n", Expect: "entry-recover/build.Context.BuildFile"},
@@ -66,6 +67,39 @@ func runC07(c *core.Check) {
 	}
 	info := pk.TypesInfo
 	c.Trust("golang.org/x/tools@v0.29.0 go/cfg, go/ssa, callgraph/cha, callgraph/vta")
+
+	// ---------- (0) lazy loading is not re-entrant: loadSymbol takes the loader out of the table BEFORE it runs it. While a
+	// loader computes a function's own signature, a reference to the same name comes back to loadSymbol; if the loader
+	// were still registered it would run again, without end (a stack overflow no recover can catch)
+	if ls := prog.FuncDecl("./cl", "pkgCtx.loadSymbol"); ls != nil {
+		const bRemoved flow.State = 1
+		bad := token.NoPos
+		nLoad := 0
+		p := &flow.Problem{Body: ls.Body, Info: info}
+		p.Node = func(n ast.Node, st flow.State, record bool) flow.State {
+			if _, isDefer := n.(*ast.DeferStmt); isDefer {
+				return st
+			}
+			for _, call := range flow.Calls(n) {
+				if id, ok := call.Fun.(*ast.Ident); ok && id.Name == "delete" && len(call.Args) == 2 && strings.HasSuffix(nows(core.ExprStr(call.Args[0])), ".syms") {
+					st |= bRemoved
+				}
+				if sel, ok := call.Fun.(*ast.SelectorExpr); ok && sel.Sel.Name == "load" && len(call.Args) == 0 {
+					if record {
+						nLoad++
+						if st&bRemoved == 0 {
+							bad = call.Pos()
+						}
+					}
+				}
+			}
+			return st
+		}
+		flow.Solve(p)
+		c.Decide(!bad.IsValid() && nLoad > 0, "loader-reentrancy", "pkgCtx.loadSymbol", bad, "the loader is removed from the symbol table before it runs", "pkgCtx.loadSymbol runs a symbol's loader while the loader is still registered in ctx.syms: a reference to the same name from inside the loader (a function whose signature mentions itself through a type, a recursive initialiser) re-enters loadSymbol and runs the loader again without end — unbounded recursion ending in a stack overflow, which no recover converts into an error")
+	} else {
+		c.Bad("anchor", "cl.pkgCtx.loadSymbol", 0, "not found")
+	}
 
 	// ---------- (1) NewPackage installs the handler first
 	np := prog.FuncDecl("./cl", "NewPackage")
